@@ -181,6 +181,16 @@ pub fn gen_posture(w: &mut Rng, limits: &Option<([f64; 6], [f64; 6])>) -> [f64; 
         q[1] = w.range_f64(0.8, 2.6) * if w.chance(0.5) { 1.0 } else { -1.0 };
         q[2] = w.range_f64(0.8, 2.8) * if w.chance(0.5) { 1.0 } else { -1.0 };
     }
+    // numerically inside non-wrapping limits, not just modulo a full turn (an angle like -2.7 is
+    // "compliant" with limits [-1.56, 3.62] because -2.7 + 2 pi is inside, but joint-space
+    // interpolation from there leaves the arc: planners are only given plain in-range values)
+    if let Some((f, t)) = limits {
+        for i in 0..6 {
+            if f[i] < t[i] && !(q[i] >= f[i] && q[i] <= t[i]) {
+                q[i] = w.range_f64(f[i], t[i]);
+            }
+        }
+    }
     q
 }
 
